@@ -111,7 +111,7 @@ theorem complitY_spec (st : St) (reexec isDef : Bool) (l : LExp) (isStruct : Boo
         · simp [h1, h2]
         · simp [h1, h2, h3]
 
-/-- `l = <-c` / `x := <-c`: since commit 177a151 of the repository the received value is assigned (declared) like any other value -/
+/-- `l = <-c` / `x := <-c`: since commit 212dc2e of the repository the received value is assigned (declared) like any other value -/
 theorem recvY_spec (st : St) (isDef : Bool) (l : LExp) (r : RExp) :
     recvY share st isDef l r = Spec.recv st isDef l r := by
   unfold recvY Spec.recv
@@ -140,7 +140,7 @@ theorem recvY_spec (st : St) (isDef : Bool) (l : LExp) (r : RExp) :
 theorem assertFresh_share (reexec isDef rd : Bool) : assertFresh share reexec isDef rd = (isDef && !rd) := by
   cases rd <;> simp [assertFresh, share_assertDefineFresh, share_lookup2RedeclInPlace]
 
-/-- `x, ok = e.(T)` and `x, ok := e.(T)`, holding or failing, on every execution (commit 2fe0a18 of the repository) -/
+/-- `x, ok = e.(T)` and `x, ok := e.(T)`, holding or failing, on every execution (commit daee744 of the repository) -/
 theorem assert2Y_spec (st : St) (reexec isDef : Bool) (x ok : Name) (r : RExp) (succ : Bool) (zero : Val) (rdx rdok : Bool) :
     assert2Y share reexec st isDef x ok r succ zero rdx rdok = Spec.assert2 st isDef x ok r succ zero rdx rdok := by
   unfold assert2Y Spec.assert2
